@@ -361,8 +361,15 @@ func sweepCases(r *rand.Rand) []vcase {
 		c := string([]byte{byte(b)})
 		for _, t := range []string{"[true%s]", "[false%s]", "[null%s]", "{\"a\":null%s}", "{\"a\":true%s,\"b\":1}", "[1%s]", "[-1%s]", "[1.5%s]", "[1e5%s]", "[0%s]",
 			"[%s]", "[%s1]", "[1,%s2]", "[1%s,2]", "{%s\"a\":1}", "{\"a\"%s:1}", "{\"a\":%s1}", "{\"a\":1%s}", "%s[1]", "[1]%s", "[[]%s]", "[{}%s]", "[\"s\"%s]",
-			"[1%s2]", "[-%s]", "[1.%s]", "[1e%s]", "[1e+%s]", "[t%sue]", "[nul%s]", "[fals%s]", "[tru%s]"} {
+			"[1%s2]", "[-%s]", "[1.%s]", "[1e%s]", "[1e+%s]", "[t%sue]", "[nul%s]", "[fals%s]", "[tru%s]",
+			// the byte after a backslash (the escape table: only " \\ / b f n r t u may follow) and in each hex position of \uXXXX
+			"[\"\\%s\"]", "[\"x\\%sy\"]", "{\"k\\%s\":1}", "[\"\\u%s041\"]", "[\"\\u0%s41\"]", "[\"\\u00%s1\"]", "[\"\\u004%s\"]"} {
 			add(strings.Replace(t, "%s", c, 1))
+		}
+		// ... with the backslash in different lanes of the 32-byte windows of the string routines, and near the end of the input
+		for _, lead := range []int{5, 20, 28, 29, 30, 31, 37, 61, 62, 63} {
+			add("[\"" + strings.Repeat("p", lead) + "\\" + c + "\"]")
+			add("[\"" + strings.Repeat("p", lead) + "\\" + c + strings.Repeat("q", 40) + "\"]")
 		}
 		// the same byte in every 16-byte lane of a 64-byte block (the kernels use per-lane tables), between and after tokens
 		for _, lane := range []int{13, 29, 45, 61, 77, 125} {
